@@ -12,8 +12,8 @@
 EXTENDS Packed, TLC, Json, IOUtils
 Tr == ndJsonDeserialize(IOEnv.TRACE)
 NT == Len(Tr)
-VARIABLES l, curlen
-vars == <<l, curlen>>
+VARIABLES l, curlen, live
+vars == <<l, curlen, live>>
 Bad(cond, prop, why) == IF cond THEN {} ELSE {<<prop, why>>}
 
 Elem(mem, base, B, i) == [k \in 1..B |-> MemBit(mem, 8 * base + i * B + k - 1)]
@@ -79,11 +79,16 @@ Fails(ev, n) == CASE ev.e = "Pk" -> PkFails(ev)
                   [] ev.e = "PkSeq" -> SeqFails(ev, n)
                   [] ev.e = "PkNew" -> {}
                   [] OTHER -> {<<"ANY", "H:unknown event kind">>}
-Init == l = 1 /\ curlen = 0
+\* after the first rejected step of a walk the real array has diverged from the model:
+\* the rest of that walk is not judged (resynchronise at the next PkNew)
+Init == l = 1 /\ curlen = 0 /\ live = TRUE
 Next == /\ l <= NT
-        /\ LET ev == Tr[l] IN
-           /\ \A x \in Fails(ev, curlen) : PrintT(<<"REJECT", l, x[1], x[2]>>)
+        /\ LET ev == Tr[l]
+               fs == IF ev.e = "PkSeq" /\ ~live THEN {} ELSE Fails(ev, curlen)
+           IN
+           /\ \A x \in fs : PrintT(<<"REJECT", l, x[1], x[2]>>)
            /\ curlen' = IF ev.e = "PkNew" THEN 0 ELSE IF ev.e = "PkSeq" THEN ev.newlen ELSE curlen
+           /\ live' = IF ev.e = "PkNew" THEN TRUE ELSE IF ev.e = "PkSeq" THEN (live /\ fs = {}) ELSE live
         /\ l' = l + 1
 Spec == Init /\ [][Next]_vars
 =============================================================================
